@@ -11,6 +11,7 @@ import json
 import os
 import random
 import sys
+import threading
 import time
 
 PROP = 'C13'
@@ -471,6 +472,22 @@ def two_managers_check():
         settle(A, [(1, 'list')], 'a proxy stored in a dict of B', problems)
         del d                                 # the container itself goes away
         settle(A, [], 'the dict of B that held the proxy was destroyed', problems)
+        # a hosted class whose constructor hosts something itself
+        box = {}
+
+        def ctor():
+            h = A.CtorHolder()
+            box['items'] = list(h.get())
+            del h
+        th = threading.Thread(target=ctor, daemon=True)
+        th.start()
+        th.join(10)
+        if box.get('items') != [1, 2]:
+            problems.append(f'a hosted class whose constructor calls managed_list(): creating it did not return within 10 s '
+                            f'(got {box.get("items")}); the server is dead-locked')
+            A._process.kill()
+        else:
+            settle(A, [], 'the holder and the list its constructor hosted are gone after the last proxy', problems)
     return problems
 
 
